@@ -35,7 +35,7 @@ pub static PROP: Prop = Prop {
         "accumulated-step-panic-threshold (plain duration) is counted, not judged",
     ],
     profiles: Profiles::Both,
-    cases: |t| t.pick(120_000, 3_000_000),
+    cases: |t| t.pick(80_000, 3_000_000),
     budget_s: |t| t.pick(40, 400),
     run,
     min_nontrivial: 500,
